@@ -49,3 +49,113 @@ def stop_index(rws):
         if r['stop']:
             return i
     return None
+
+
+# ----------------------------------------------------------------------------------------------------------------------
+# Reference model of an *editable* prescription (used by C01): plain data + the frame conditions of every edit.
+# ----------------------------------------------------------------------------------------------------------------------
+class RefLens:
+    """surfaces: list of dicts {R, k, coeffs (list or list of lists or None), medium (spec after the surface; 'mirror' keeps
+    the medium in front), x, y, rx, ry, stop, shape}; t[k] = thickness after surface k (t[0] = object distance);
+    wavelengths: list of [value, is_primary]."""
+
+    def __init__(self, obj_t):
+        self.surf = [dict(R=INF, k=0.0, coeffs=None, medium='air', x=0.0, y=0.0, rx=0.0, ry=0.0, stop=False, shape='plane')]
+        self.t = [obj_t]
+        self.waves = []
+        self.pickups = []    # (src, attr, dst, scale, offset)
+        self.solves = []     # (surface, height)
+
+    # ---- construction in index order -------------------------------------------------------------------------------
+    def add_surface(self, s):
+        if s.get('stop'):
+            for q in self.surf:
+                q['stop'] = False
+        shape = s['shape']
+        R = s.get('R', INF)
+        if shape in ('sphere', 'conic') and not math.isfinite(R):
+            shape = 'plane'
+        self.surf.append(dict(R=R, k=s.get('k', 0.0) if shape != 'plane' else 0.0, coeffs=_copy(s.get('coeffs')), medium=s['mat'],
+                              x=s.get('dx', 0.0), y=s.get('dy', 0.0), rx=s.get('rx', 0.0), ry=s.get('ry', 0.0),
+                              stop=bool(s.get('stop')), shape=shape))
+        self.t.append(s.get('t', 0.0))
+
+    def add_wavelength(self, value, is_primary):
+        if is_primary:
+            for w in self.waves:
+                w[1] = False
+        if not self.waves:
+            is_primary = True
+        self.waves.append([value, bool(is_primary)])
+
+    # ---- derived observations ----------------------------------------------------------------------------------------
+    def positions(self):
+        z = [-self.t[0], 0.0]
+        for k in range(1, len(self.surf) - 1):
+            z.append(z[-1] + self.t[k])
+        return z[:len(self.surf)]
+
+    def media(self):
+        """medium spec in front of / behind every surface (a mirror keeps the medium in front of it)."""
+        pre, post = [], []
+        cur = self.surf[0]['medium']
+        for k, s in enumerate(self.surf):
+            pre.append(cur if k > 0 else None)
+            if s['medium'] != 'mirror':
+                cur = s['medium']
+            post.append(cur)
+        return pre, post
+
+    def stop_index(self):
+        idx = [k for k, s in enumerate(self.surf) if s['stop']]
+        return idx
+
+    # ---- edits ---------------------------------------------------------------------------------------------------------
+    def set_radius(self, v, k):
+        self.surf[k]['R'] = v
+        if self.surf[k]['shape'] == 'plane':
+            self.surf[k]['shape'] = 'sphere'
+            self.surf[k]['k'] = 0.0
+
+    def set_conic(self, v, k):
+        self.surf[k]['k'] = v
+
+    def set_thickness(self, v, k):
+        self.t[k] = v
+
+    def set_index(self, v, k):
+        self.surf[k]['medium'] = ['ideal', v, 0.0]
+
+    def set_coeff(self, v, k, idx):
+        c = self.surf[k]['coeffs']
+        if isinstance(idx, (list, tuple)):
+            i, j = idx
+            while len(c) <= i:
+                c.append([0.0] * len(c[0]))
+            for row in c:
+                while len(row) <= j:
+                    row.append(0.0)
+            c[i][j] = v
+        else:
+            c[idx] = v
+
+    def set_tilt(self, v, k, axis):
+        self.surf[k]['rx' if axis == 'x' else 'ry'] = v
+
+    def set_decenter(self, v, k, axis):
+        self.surf[k]['x' if axis == 'x' else 'y'] = v
+
+    def apply_pickups(self):
+        for (src, attr, dst, sc, off) in self.pickups:
+            if attr == 'radius':
+                self.set_radius(sc * self.surf[src]['R'] + off, dst)
+            elif attr == 'conic':
+                self.set_conic(sc * self.surf[src]['k'] + off, dst)
+            elif attr == 'thickness':
+                self.set_thickness(sc * self.t[src] + off, dst)
+
+
+def _copy(c):
+    if c is None:
+        return None
+    return [list(r) if isinstance(r, (list, tuple)) else r for r in c]
